@@ -114,6 +114,9 @@ func (vc *VC) assume(t string) {
 	vc.items = append(vc.items, Item{Text: "(assert " + t + ")"})
 }
 func (vc *VC) define(prefix, sort, t string) string {
+	if t == "" {
+		panic("internal: empty term for " + prefix)
+	}
 	// avoid trivial aliases
 	if isAtom(t) {
 		return t
